@@ -22,7 +22,7 @@ from .z3env import REPO_SRC, ensure_repo_first
 VERIF = os.path.dirname(os.path.dirname(os.path.abspath(__file__)))
 EVID = os.environ.get("UJVC_EVID") or os.path.join(VERIF, "evidence")
 CONTRACT_MODULES = [
-    "retry", "times", "filestore", "stores", "engine", "prepare", "coordinator", "queues", "runphys", "runpath", "rewrite", "stale", "pruning", "queues", "kahn", "graphs", "rewrite", "stale",
+    "retry", "times", "filestore", "stores", "engine", "prepare", "coordinator", "queues", "runphys", "runpath", "rewrite", "stale", "pruning", "system", "plumbing", "tracebacks", "progress", "queues", "kahn", "graphs", "rewrite", "stale",
     "plumbing", "runpath", "observers", "trace", "frames", "progress", "lemmas", "history",
 ]
 
@@ -78,7 +78,7 @@ def known_findings():
 
 def match_finding(ob, pid, findings):
     for f in findings:
-        if f.get("status") != "known" or f.get("property") != pid:
+        if f.get("status") != "known" or f.get("property") not in closure(pid):
             continue
         if not fnmatch.fnmatch(ob["name"], f["obligation"]):
             continue
@@ -89,6 +89,33 @@ def match_finding(ob, pid, findings):
 
 
 PROPERTY_META = {}  # pid -> dict(level_text, unproved_clauses, assumptions, replay)
+
+# The argument for a property may USE other properties as lemmas (DESIGN section 5): e.g. "run returns what direct
+# evaluation returns for every schedule" (C02) rests on the ordering and exactly-once guarantees of the engine (C01,
+# C04).  The check of P therefore also discharges the obligations of the properties P depends on, and reports a
+# refuted one as a violation of P (naming the failed obligation).
+DEPENDS = {
+    "C02": ["C01", "C04"],
+    "C03": ["C01", "C02", "C04", "C05", "C09"],
+    "C05": ["C01", "C04", "C09"],
+    "C06": ["C01"],
+    "C08": ["C01", "C05", "C06", "C09", "C11"],
+    "C09": ["C01"],
+    "C14": ["C09"],
+    "C15": ["C04"],
+    "C16": ["C01", "C04"],
+}
+
+
+def closure(pid):
+    out, todo = [], [pid]
+    while todo:
+        p = todo.pop()
+        if p in out:
+            continue
+        out.append(p)
+        todo.extend(DEPENDS.get(p, []))
+    return out
 
 
 def property_meta(pid):
@@ -118,7 +145,8 @@ _REPLAY_CACHE = {}
 def check_property(pid, tier="quick", seed=0, update_expected=False, jobs=None, only_units=None):
     t0 = time.time()
     mods = load_contracts()
-    unit_names = [n for n, u in U.UNITS.items() if pid in u.props]
+    pids = closure(pid)
+    unit_names = [n for n, u in U.UNITS.items() if any(p in u.props for p in pids)]
     if only_units:
         unit_names = [n for n in unit_names if any(s in n for s in only_units)]
     if not unit_names:
@@ -140,7 +168,7 @@ def check_property(pid, tier="quick", seed=0, update_expected=False, jobs=None, 
             status = max(status, 2)
             msgs.append(f"UNDECIDED unit={r.name}: {r.message}")
         for o in r.obligations:
-            if pid in o["props"]:
+            if any(p in o["props"] for p in pids):
                 o["unit"] = r.name
                 o["bounded"] = U.UNITS[r.name].kind == "bounded"
                 obs.append(o)
